@@ -193,6 +193,9 @@ def check_retention(prog, r):
             return ("reason", frozenset(lab))
         if e[0] == "discr" and e[2] and e[2].endswith("Option") and lab <= {"Some", "None"} and len(lab) == 1 and not calls and fvx.local_name.get(1) in expr_vars(e):
             return ("down", lab == {"Some"})
+        if e[0] == "discr" and e[2] and e[2].endswith("Notification") and "else" not in lab:
+            # a test on the NOTIFICATION's (sub)code
+            return ("notif_code", frozenset(lab))
         if len(lab) == 1 and lab <= {"true", "false"}:
             t_ = lab == {"true"}
             if e[0] in ("field", "deref", "var") and "notification_enabled" in (expr_fields(e) + expr_vars(e)):
@@ -221,6 +224,10 @@ def check_retention(prog, r):
                     bad.append(("helper mode after %s without the N bit (notification_enabled)" % sorted(reasons), facts))
                 elif not plain and facts.get("hard_reset") is True:
                     bad.append(("helper mode after a hard reset", facts))
+                elif reasons and reasons <= {"LocalNotification"} and not (facts.get("notif_code") and all(str(x).startswith("Cease") or str(x) == "Other" for x in facts["notif_code"])):
+                    # RFC 8538: of the NOTIFICATIONs this speaker sends only a Cease keeps the routes; a session closed for a
+                    # malformed UPDATE / bad OPEN / FSM error must not enter helper mode
+                    bad.append(("helper mode after a NOTIFICATION we sent that was not tested to be a Cease", facts))
             elif plain and down is not None:
                 bad.append(("no helper mode after a plain TCP / IO drop", facts))
         if bad:
